@@ -16,6 +16,6 @@ Extraction "model.ml" Fragment.run Fragment.fev N.of_nat N.to_nat N.add N.mul
   Wrap.wto_term Wrap.wfrom_term Wrap.kind_of Wrap.set_of_list Wrap.normalize_proplist Wrap.proplist_to_map Wrap.map_to_proplist
   Wrap.to_map_recursive Wrap.is_proplist Wrap.kw_build Wrap.akm_build Wrap.proplist_get_atom_key
   Serde.rser Serde.rde Serde.rwt
-  Receive.receive Receive.rstate_init Receive.handle_frame Send.send_frame Send.frame_body Send.control_of Send.uses_pass_through
+  Receive.receive Receive.receive_half Receive.rstate_init Receive.handle_frame Send.send_frame Send.frame_body Send.control_of Send.uses_pass_through
   Node.step Node.node_init
   AtomCache.sender_header AtomCache.meant AtomCache.push.
